@@ -469,6 +469,15 @@ class CFG:
             facts |= literals(node.test, node.polarity)
         return facts
 
+    def guard_literals(self, node, kinds="n"):
+        """[(expr node, polarity, guard node)] for all literals of guards dominating node."""
+        out = []
+        for g in self.dominating_guards(node, kinds):
+            if g.test is not None:
+                for e, pol in literal_nodes(g.test, g.polarity):
+                    out.append((e, pol, g))
+        return out
+
     def dominating_guards(self, node, kinds="n"):
         gs = self.dominated_by(node, lambda d: d.kind == "guard", kinds)
         if node.kind == "guard":
@@ -491,6 +500,26 @@ def literals(test, polarity):
                     rec(v, pol)
                 return
         out.add((norm(e), pol))
+
+    rec(test, polarity)
+    return out
+
+
+def literal_nodes(test, polarity):
+    """Like literals(), but returns [(expr node, polarity)]."""
+    out = []
+
+    def rec(e, pol):
+        if isinstance(e, ast.UnaryOp) and isinstance(e.op, ast.Not):
+            rec(e.operand, not pol)
+            return
+        if isinstance(e, ast.BoolOp):
+            conj = isinstance(e.op, ast.And)
+            if (conj and pol) or (not conj and not pol):
+                for v in e.values:
+                    rec(v, pol)
+                return
+        out.append((e, pol))
 
     rec(test, polarity)
     return out
